@@ -692,7 +692,8 @@ pub fn random_run(rng: &mut Rng, run_no: u64, len: usize, out: &mut Out) {
                 };
                 let funds = if run.dep_kind == "native" { match rng.below(6) { 0 => 0, 1 => dep_amt + 1, 2 => dep_amt.saturating_sub(1), _ => dep_amt } } else { 0 };
                 let fdenom = if run.dep_kind == "native" && rng.chance(1, 10) { OTHER } else { DEP };
-                let extra = if run.dep_kind == "native" && fdenom == DEP && rng.chance(1, 8) { rng.range(1, 3) } else { 0 };
+                // (coins of another denomination next to a native deposit, or stray native coins on a cw20-deposit multisig)
+                let extra = if ((run.dep_kind == "native" && fdenom == DEP) || run.dep_kind == "cw20") && rng.chance(1, 8) { rng.range(1, 3) } else { 0 };
                 json!({"act":"propose","by":who,"args":{"kind":kind,"latest":latest,"funds":funds,"fdenom":fdenom,"extra":extra}})
                 }
             }
